@@ -51,6 +51,18 @@ CHECKS = {
    "Same traces: any exception, non-finite number, missing/duplicate direct-integration record (every site/process zone of the prepared tree, incl. three-level nesting), reported temperature outside the input envelope, JSON round-trip failure or difference between repeated calls is a violation; numbers as floats and as value-with-unit objects.",
    "Analysis options other than DT_CONT / DT_PHASE_CHANGE are exercised by the options sweep of the thorough tier only; heat-pump targeting (stochastic optimiser) is not modelled.",
    "TLA+ generator spec + real executions judged by a TLA+ trace specification checked with TLC"),
+ "C11": ("model_checking", "7/C11",
+   "spec/ServiceHistory.tla models the library's process-wide state (graph accumulator, caller-owned reusable model, wrapper cache) under every history of service calls (dict, value-with-unit dict, fresh model, reused model) and wrapper operations; TLC checks every result equals Fresh(p), inputs stay pristine, no module state survives. All call histories of length 3 (12^3) and all stale-cache-shaped wrapper histories are replayed in long-lived interpreters: result digest vs a fresh-process digest, deep snapshot of the input, digests of all earlier results, and a snapshot of every mutable object reachable from the library's module namespaces (module containers, mutable default arguments, class attributes) before/after every call.",
+   "Three fixed problems; digests cover records, pinches, duties, graph keys and graph point counts (not every graph coordinate - C13 covers those).",
+   "TLA+ spec + TLC exhaustive model check; TLC-generated histories replayed into the implementation"),
+ "C16": ("model_checking", "7/C16",
+   "Same ServiceHistory spec: every wrapper history (load from model / JSON / value-with-unit JSON / CSV directory / CSV pair / workbook, target, export; never two loads in a row) of length 4 is replayed with files materialised in a scratch directory; the wrapper's result must equal the fresh-process digest of the loaded problem for every channel, a repeated target must return the cached object, and exported workbooks are opened and their sheet names checked. spec/SheetNames.tla transcribes the sheet-name allocator over character sequences (31-character limit, forbidden characters, blank names, 13 colliding allocations) and every behaviour is replayed on the real _unique_sheet_name.",
+   "Problems use default options (the CSV channel cannot carry options); root-zone name differences between channels (file stem) are normalised.",
+   "TLA+ spec + TLC exhaustive model check; TLC-generated histories replayed into the implementation"),
+ "C20": ("model_checking", "7/C20",
+   "spec/HeatExchanger.tla: (1) the arrangement dispatch of HX_Eff/HX_NTU as a machine, model-checked for both label forms of all 8 arrangements; (2) trace validation: the real functions are evaluated on the grid 8 arrangements x 2 label forms x NTU=k/4 x c in {0,..,1} x 1..4 passes and TLC judges label-form independence, range, monotonicity, the c=0 limit and the counter/parallel-flow closed forms against an exp table it verifies itself (semigroup law, Taylor bracket), the counter-flow bound and both round trips; LMTD bounds, symmetry, refusal and the root-free Carlson/Polya bracket.",
+   "Fixed point 1e-6 (values) / 1e-4 (exp table); both-mixed cross-flow judged on its rising branch only (its effectiveness has a maximum in NTU); condensing/evaporating only at c = 0; known finding KF-C20-crfuu.",
+   "TLA+ spec + TLC model check of the dispatch; real executions judged by the TLA+ trace specification with TLC"),
 }
 NOT_YET = {}
 
